@@ -77,7 +77,7 @@ def showPair (s : St) (a : Addr) : String :=
   | none => s!"{a}:?"
   | some p =>
     let q := p.st
-    s!"{a}:{p.t1}:{p.t2}:{showStatus q.status}:{q.r1}:{q.r2}:{q.S}:{q.bal1}:{q.bal2}:{q.lpOwn}:{q.burn1}:{q.burn2}"
+    s!"{a}:{p.t1}:{p.t2}:{showStatus q.status}:{q.r1}:{q.r2}:{q.S}:{q.bal1}:{q.bal2}:{q.lpOwn}"
 
 def toks (k : Nat) : List Nat := (List.range k).map (· + 1)
 
@@ -85,11 +85,18 @@ def showUser (d : DSt) (u : Nat) : String :=
   let b := d.s.ubal u
   s!"{u}:{joinNats ((toks d.ntok).map b)}:{orDash (joinNats (d.s.addrs.map b))}"
 
+/-- total burned of token `t` over all pairs -/
+def burned (s : St) (t : Tok) : Nat :=
+  (s.addrs.map fun a =>
+    match s.pairs a with
+    | none => 0
+    | some p => (if p.t1 = t then p.st.burn1 else 0) + (if p.t2 = t then p.st.burn2 else 0)).sum
+
 def showState (d : DSt) : String :=
   let s := d.s
   let reg := orDash (",".intercalate (s.pairMap.map fun e => s!"{e.1.1}-{e.1.2}-{e.2}"))
   s!"act={showBool s.active} cre={showBool s.creationEnabled} tpl={showBool s.templateSet} " ++
-  s!"reg={reg} rb={joinNats ((toks d.ntok).map s.rbal)} " ++
+  s!"reg={reg} rb={joinNats ((toks d.ntok).map s.rbal)} burn={joinNats ((toks d.ntok).map (burned s))} " ++
   s!"pairs={orDash (";".intercalate (s.addrs.map (showPair s)))} " ++
   s!"users={";".intercalate (d.accts.map (showUser d))}"
 
